@@ -96,7 +96,10 @@ def to_model(case, obs):
         elif n == "raw_tcp":
             if o.get("r") == "ok":
                 tag = cmd[4] if cmd[1] == "data" else 0
-                e = "NRaw %s" % pkt_coq([o["src"][0], o["dst"][0], 1, o["src"][1], o["dst"][1], FLAGS[cmd[1]], tag])
+                fl = FLAGS[cmd[1]]
+                if cmd[1] in ("ack", "data") and o.get("known"):
+                    fl += 16          # ghost flag F_OK: the harness took seq/ack from the socket listing, so they are the expected ones
+                e = "NRaw %s" % pkt_coq([o["src"][0], o["dst"][0], 1, o["src"][1], o["dst"][1], fl, tag])
         elif n == "set_cursor":
             e = "NSetCursor %d %d" % (cmd[1], cmd[2])
         elif n == "egress":
